@@ -131,7 +131,18 @@ template <class T>
 IMATH_HOSTDEVICE IMATH_CONSTEXPR14 inline T
 Line3<T>::distanceTo (const Line3<T>& line) const IMATH_NOEXCEPT
 {
-    T d = (dir % line.dir) ^ (line.pos - pos);
+    //
+    // The common perpendicular has direction dir % line.dir, which is
+    // not of unit length unless the lines are perpendicular, and is
+    // zero for parallel lines.
+    //
+
+    Vec3<T> n = dir % line.dir;
+    T       l = n.length ();
+
+    if (l == T (0)) return distanceTo (line.pos); // parallel lines
+
+    T d = (n ^ (line.pos - pos)) / l;
     return (d >= 0) ? d : -d;
 }
 
